@@ -20,6 +20,7 @@
 (*           filtermap(n,ps,body)                                            *)
 (*   nodes   int float bool str unit var neg not bin if blk let assign       *)
 (*           cassign call ctor rec fld match try ret list while for          *)
+(*           mcall (a method call  recv.m(args), see "methods")              *)
 (*                                                                           *)
 (* Chk(P, i, env, exp) is bidirectional like TypeChecker::expr: `exp` is the *)
 (* expected type (AnyT = a fresh variable), the result is the type after      *)
@@ -260,6 +261,84 @@ PathTy(P, t, fs, k) ==
        THEN PathTy(P, FieldTy(DeclOf(P, t.n).fs, fs[k]), fs, k + 1)
   ELSE Err
 
+(* ------------------------------------------------------------------ methods *)
+(* Built-in methods (docs/source/reference/std; registered in runtime/basic.rs). *)
+(* A method call  recv.m(args)  is typed like a call of the function m of the   *)
+(* receiver's type whose FIRST parameter is the receiver (expr.rs method_call /  *)
+(* path_function_call, ResolvedPath::Method): the method is looked up by the     *)
+(* NAME of the receiver's type only (List, String, u32, ...), then               *)
+(*   - the receiver's type must unify with the method's receiver parameter (for  *)
+(*     a generic method fn[T](List[T], ..) that binds T to the element type; a   *)
+(*     method WITHOUT type parameters may still demand one instantiation of a    *)
+(*     generic type: List.join is fn(List[String], String) -> String),           *)
+(*   - the arguments must match the remaining parameters in number and type,     *)
+(*   - the result has the documented type.                                       *)
+(* Only built-in types have methods; Option, Verdict, (), records and enums      *)
+(* declared by the script have none (so a namesake of a built-in has none).      *)
+(* MethodSig(t, m): signature of method m for a receiver of (resolved) type t,   *)
+(* NoMethod when the type has no method of that name.  A result type outside the *)
+(* fragment (the views String.bytes / chars / lines) is left open (AnyT).        *)
+(* Functions of a type that take no receiver (List.new, String.from_chars,       *)
+(* Prefix.new) are not methods: called through a value they are ill typed (their *)
+(* first parameter, if any, never is the receiver's type).                       *)
+U64T == T("u64")
+MS(self, ps, ret) == [self |-> self, ps |-> ps, ret |-> ret]
+NoMethod == MS(Err, <<>>, Err)
+StringSig(m) ==
+  CASE m \in {"contains", "starts_with", "ends_with", "eq"} -> MS(Str, <<Str>>, Bool)
+    [] m = "append"  -> MS(Str, <<Str>>, Str)
+    [] m = "repeat"  -> MS(Str, <<U64T>>, Str)
+    [] m = "replace" -> MS(Str, <<Str, Str>>, Str)
+    [] m = "split"   -> MS(Str, <<Str>>, ListOf(Str))
+    [] m \in {"splitn", "rsplitn"} -> MS(Str, <<U64T, Str>>, ListOf(Str))
+    [] m \in {"to_lowercase", "to_uppercase", "trim", "trim_start", "trim_end", "to_string"} -> MS(Str, <<>>, Str)
+    [] m \in {"strip_prefix", "strip_suffix"} -> MS(Str, <<Str>>, Opt(Str))
+    [] m \in {"bytes", "chars", "lines"} -> MS(Str, <<>>, AnyT)
+    [] OTHER -> NoMethod
+(* a: the element type of the receiver (the T of the generic methods) *)
+ListSig(a, m) ==
+  CASE m \in {"len", "capacity"} -> MS(ListOf(a), <<>>, U64T)
+    [] m = "is_empty" -> MS(ListOf(a), <<>>, Bool)
+    [] m = "contains" -> MS(ListOf(a), <<a>>, Bool)
+    [] m = "get"      -> MS(ListOf(a), <<U64T>>, Opt(a))
+    [] m = "index"    -> MS(ListOf(a), <<a>>, Opt(U64T))
+    [] m = "push"     -> MS(ListOf(a), <<a>>, Unit)
+    [] m = "swap"     -> MS(ListOf(a), <<U64T, U64T>>, Unit)
+    [] m = "concat"   -> MS(ListOf(a), <<ListOf(a)>>, ListOf(a))
+    [] m = "join"     -> MS(ListOf(Str), <<Str>>, Str)          \* not generic: lists of strings only
+    [] OTHER -> NoMethod
+FloatSig(t, m) ==
+  CASE m \in {"abs", "ceil", "floor", "round", "sqrt"} -> MS(t, <<>>, t)
+    [] m = "pow" -> MS(t, <<t>>, t)
+    [] m \in {"is_nan", "is_finite", "is_infinite"} -> MS(t, <<>>, Bool)
+    [] m = "to_string" -> MS(t, <<>>, Str)
+    [] OTHER -> NoMethod
+IpAddrSig(t, m) ==
+  CASE m = "eq" -> MS(t, <<t>>, Bool)
+    [] m \in {"is_ipv4", "is_ipv6"} -> MS(t, <<>>, Bool)
+    [] m = "to_canonical" -> MS(t, <<>>, t)
+    [] m = "to_string" -> MS(t, <<>>, Str)
+    [] OTHER -> NoMethod
+PrefixSig(t, m) ==
+  CASE m = "eq" -> MS(t, <<t>>, Bool)
+    [] m \in {"addr", "min_addr", "max_addr"} -> MS(t, <<>>, T("IpAddr"))
+    [] m = "len" -> MS(t, <<>>, T("u8"))
+    [] m = "to_string" -> MS(t, <<>>, Str)
+    [] OTHER -> NoMethod
+MethodSig(t, m) ==
+  CASE t.k = "String" -> StringSig(m)
+    [] t.k = "list"   -> ListSig(t.a, m)
+    [] t.k \in IntK \cup {"bool"} -> IF m = "to_string" THEN MS(t, <<>>, Str) ELSE NoMethod
+    [] t.k \in FloatK -> FloatSig(t, m)
+    [] t.k = "IpAddr" -> IpAddrSig(t, m)
+    [] t.k = "Prefix" -> PrefixSig(t, m)
+    [] OTHER -> NoMethod
+(* A receiver whose type the judgement keeps open (an un-suffixed literal or a   *)
+(* variable bound to one, an undetermined value): roto looks the method up in    *)
+(* the type the variable has been resolved to at that point (none: "no method on *)
+(* {integer}").  The judgement does not decide: the permissive side.             *)
+FlexRecv(t) == t.k \in {"any", "never", "int", "sint", "float"}
+
 (* ------------------------------------------------------------------ checker *)
 RECURSIVE Chk(_, _, _, _), ChkBlock(_, _, _, _), ChkStmts(_, _, _, _, _),
           ChkArgs(_, _, _, _, _, _), ChkElems(_, _, _, _, _, _), ChkFields(_, _, _, _, _, _),
@@ -370,6 +449,21 @@ Chk(P, i, env, exp) ==
          IN IF Len(n.args) # Len(d.ps) THEN Bad ELSE
             LET a == ChkArgs(P, n.args, [x \in DOMAIN d.ps |-> d.ps[x].t], env, 1, FALSE) IN
             IF ~a.ok THEN Bad ELSE R(Unify(P, exp, ret), a.d)
+    [] n.k = "mcall" ->
+         (* the receiver is checked on its own (a fresh variable in method_call, the declared type of *)
+         (* the path in path_function_call), then unified with the receiver parameter of the method   *)
+         LET r == Chk(P, n.e, env, AnyT) IN
+         IF ~Ok(r) THEN Bad
+         ELSE IF FlexRecv(r.t) THEN
+           LET a == ChkArgs(P, n.args, [x \in DOMAIN n.args |-> AnyT], env, 1, r.d) IN
+           IF ~a.ok THEN Bad ELSE R(Unify(P, exp, AnyT), a.d)
+         ELSE
+           LET sg == MethodSig(r.t, n.m) IN
+           IF sg.self.k = "err" THEN Bad                               \* no method of that name on this type
+           ELSE IF Unify(P, r.t, sg.self).k = "err" THEN Bad           \* the receiver is an argument like any other
+           ELSE IF Len(n.args) # Len(sg.ps) THEN Bad
+           ELSE LET a == ChkArgs(P, n.args, sg.ps, env, 1, r.d) IN
+                IF ~a.ok THEN Bad ELSE R(Unify(P, exp, sg.ret), a.d)
     [] n.k = "ctor"  ->
          (* bare Some(..) / None (en = ""): always the built-in Option; the path Option.Some / Option.None *)
          (* means the built-in only when the script declares no type called Option                         *)
@@ -506,7 +600,14 @@ ChkFields(P, fs, dfs, env, k, d) ==
        ELSE LET rest == ChkFields(P, fs, dfs, env, k + 1, d \/ r.d) IN
             [ok |-> rest.ok, d |-> rest.d, ts |-> <<r.t>> \o rest.ts]
 
-(* the arms of a match, in order (expr.rs match_expr) *)
+(* the arms of a match, in order (expr.rs match_expr).  Divergence accounting:  *)
+(* a construct diverges only if EVERY way through it exits.  A match diverges   *)
+(* iff every arm does - an arm with a guard and a `_` arm count like any other   *)
+(* (a guarded arm that is taken and finishes normally makes the match finish     *)
+(* normally), whereas for EXHAUSTIVENESS a guarded arm does not count (its guard *)
+(* may be false).  `if` without else, a loop, the right operand of && / || may   *)
+(* be skipped: they never diverge through their body (see above).  A block       *)
+(* without a final expression that does not diverge has type ().                 *)
 ChkArms(P, arms, vs, env, exp, st) ==
   IF st.k > Len(arms) THEN
     (* exhaustive: a default arm or every variant covered by an unguarded arm *)
@@ -546,6 +647,7 @@ Kids(n) ==
     [] n.k = "blk"     -> Range(n.ss) \cup Range(n.last)
     [] n.k \in {"assign", "cassign"} -> {n.e}
     [] n.k \in {"call", "ctor"} -> Range(n.args)
+    [] n.k = "mcall"   -> {n.e} \cup Range(n.args)
     [] n.k = "rec"     -> {n.fs[x].e : x \in DOMAIN n.fs}
     [] n.k = "match"   -> {n.e} \cup UNION {Range(n.arms[x].g) \cup {n.arms[x].b} : x \in DOMAIN n.arms}
     [] n.k = "ret"     -> Range(n.e)
